@@ -185,14 +185,6 @@ class Guillot2010(TemperatureProfile):
             (1.0 - self.alpha) * eta(gamma_1, tau) + \
             3.0 * self.T_irr**4/4.0 * self.alpha * eta(gamma_2, tau)
 
-        if not np.all(np.isfinite(T4)) or np.any(T4 < 0.0):
-            self.warning('Unphysical Guillot parameters kappa_ir=%s '
-                         'kappa_v1=%s kappa_v2=%s alpha=%s',
-                         self.kappa_ir, self.kappa_v1, self.kappa_v2,
-                         self.alpha)
-            raise InvalidModelException('Guillot parameters do not give a '
-                                        'real temperature')
-
         T = T4**0.25
 
         return T
